@@ -1460,6 +1460,28 @@ def check_c13(idx: Index, tier: str, res: Result) -> None:
         return src(e).replace("'", '"')
 
     in_ploop = {id(x) for x in ast.walk(ploop)}
+    # ZERO (round 10): the value of a numeric property is never used as a Python condition in the property loop - 0 and 0.0 are values
+    # of the population like any other; `if not value` ("not initialised yet") routes exactly the zeros past the fold, so min / max / mean
+    # of a cell with a zero in it are the aggregates of the others.  Comparisons, isinstance and `is None` tests are not truth tests.
+    def _truth_tested(t: ast.AST) -> List[ast.AST]:
+        if isinstance(t, ast.BoolOp):
+            return [y for v in t.values for y in _truth_tested(v)]
+        if isinstance(t, ast.UnaryOp) and isinstance(t.op, ast.Not):
+            return _truth_tested(t.operand)
+        if isinstance(t, (ast.Compare, ast.Constant)) or (isinstance(t, ast.Call) and call_name(t) in ("isinstance", "hasattr", "callable")):
+            return []
+        return [t]
+    value_names = {VALUE}
+    for n in ast.walk(ploop):
+        if isinstance(n, ast.Assign) and len(n.targets) == 1 and isinstance(n.targets[0], ast.Name) and norm_value(n.value) in value_names:
+            value_names.add(n.targets[0].id)
+    tests = [n.test for n in ast.walk(ploop) if isinstance(n, (ast.If, ast.IfExp, ast.While))]
+    zero_bad = [(t, e) for t in tests for e in _truth_tested(t) if norm_value(e) in value_names]
+    res.check("ZERO", "no truth test of a numeric property value in the property loop (%d tests)" % len(tests), not zero_bad,
+              fi.loc(zero_bad[0][0]) if zero_bad else fi.loc(ploop), fi.qual, src(zero_bad[0][0])[:100] if zero_bad else "",
+              "the collector decides what to do with a numeric property by the truthiness of its value (`%s`): an agent whose value is 0 "
+              "takes the 'missing' path, so the zero is left out of total / min / max / mean although the agent is counted"
+              % (src(zero_bad[0][0])[:80] if zero_bad else ""), key="ZERO/value-truth-test")
     stores = []
     for n in ast.walk(aloop):
         if isinstance(n, (ast.Assign, ast.AugAssign)):
